@@ -48,6 +48,14 @@ Expand(op, id, sig, grace, tag) ==
             [q |-> "N", ms |-> <<Msg("SetSyncErrorHandler", id, 0, 0, tag)>>]
       [] op = "unset_error_handler" ->
             [q |-> "N", ms |-> <<Msg("UnsetErrorHandler", id, 0, 0, 0)>>]
+      \* Job::control(c): one control of the public enum sent as it is, at normal priority.  The three
+      \* that no method sends alone: the continuation of a graceful try-restart (tag 1 marks it as sent
+      \* from outside, not by the grace timer), Delete without the Stop before it, NextEnding at normal
+      \* priority
+      [] op = "raw_continue" ->
+            [q |-> "N", ms |-> <<Msg("ContinueTryGracefulRestart", id, 0, 0, 1)>>]
+      [] op = "raw_delete" -> [q |-> "N", ms |-> <<Msg("Delete", id, 0, 0, 0)>>]
+      [] op = "raw_next_ending" -> [q |-> "N", ms |-> <<Msg("NextEnding", id, 0, 0, 0)>>]
 
 
 =============================================================================
